@@ -19,6 +19,9 @@ type SASLConfig struct {
 	Mechanisms []string          // enabled mechanisms, e.g. PLAIN, SCRAM-SHA-256, SCRAM-SHA-512
 	Users      map[string]string // user -> password (already SASLprep'ed form expected from clients)
 	Iterations int
+	// StepDelay: every authenticate round is answered after this pause (exchanges of connections that authenticate at about
+	// the same time then interleave).
+	StepDelay time.Duration
 	// Fault injection for the exchange (C18); all optional.
 	HandshakeError     int16 // answer the handshake with this code
 	AuthError          int16 // answer SaslAuthenticate with this code at step AuthErrorStep
@@ -198,6 +201,9 @@ func (c *Cluster) hSaslAuthenticate(b *Broker, st *connState, r *Request, act *A
 		return map[string]any{"ErrorCode": int64(ErrIllegalSASLState), "ErrorMessage": "handshake first", "AuthBytes": []byte{}, "SessionLifetimeMs": int64(0)}
 	}
 	token, _ := r.Body["AuthBytes"].([]byte)
+	if cfg.StepDelay > 0 {
+		time.Sleep(cfg.StepDelay)
+	}
 	if cfg.AuthError != 0 && cfg.AuthErrorStep == st.step+1 {
 		st.step++
 		c.authEvent(AuthEvent{ConnID: r.ConnID, Mech: st.saslMech, Verdict: "error", Step: st.step, ReqSeq: r.Seq})
@@ -232,6 +238,9 @@ func (c *Cluster) serveRawSASL(b *Broker, sc *memnet.ServerConn, st *connState, 
 	if cfg == nil {
 		sc.MarkDead()
 		return false
+	}
+	if cfg.StepDelay > 0 {
+		time.Sleep(cfg.StepDelay)
 	}
 	if cfg.CloseAtStep != 0 && cfg.CloseAtStep == st.step+1 {
 		st.step++
